@@ -79,18 +79,19 @@ def wire_packets(kind: str, msgs, rng: random.Random, with_bad: bool = True):
         elif kind == "waveshare":
             for p in enc.encode_usb(m):
                 pk.append((p, "valid"))
-            if with_bad and i % 2 == 0:
-                bad = bytearray(enc.encode_usb(m)[0])
-                bad[12] ^= 0x01                      # checksum no longer matches
-                pk.append((bytes(bad), "bad-checksum"))
-            if with_bad and i % 2 == 1:
-                # line noise that cannot be mistaken for a packet start (no marker, no half marker at its ends)
-                pk.append((bytes([0x01, 0x02, 0x7f, 0x03, 0x10 + i]), "noise"))
             if with_bad:
                 # well-formed packets (marker, length, checksum) the decoder refuses with an error: a field out of
                 # range, a fast-packet frame without its length byte - right behind a packet that decodes
                 pk.append((usb_packet(0x09F11200 + i, bytes([1, 0xFD, 0xFF, 0, 0, 0, 0, 0xFC])), "out-of-range"))
                 pk.append((usb_packet(0x09F80500 + i, bytes([0x20])), "truncated-fast"))
+            if with_bad and i % 2 == 0:
+                bad = bytearray(enc.encode_usb(m)[0])
+                bad[12] ^= 0x01                      # checksum no longer matches
+                pk.append((bytes(bad), "bad-checksum"))
+            if with_bad and i % 2 == 1:
+                # line noise that cannot be mistaken for a packet start (no marker, no half marker at its ends),
+                # directly in front of the next message's packet
+                pk.append((bytes([0x01, 0x02, 0x7f, 0x03, 0x10 + i]), "noise"))
         elif kind == "yd":
             for p in enc.encode_yacht_devices(m):
                 pk.append((b"00:00:0%d.000 R " % (i % 10) + p, "valid"))
